@@ -64,6 +64,11 @@ func genLoose(t *rapid.T) LScript {
 			op := LOp{Kind: "open", W: next, Start: int64(rapid.IntRange(0, 120).Draw(t, "start"))}
 			if rapid.IntRange(0, 2).Draw(t, "preset") == 0 {
 				op.Preset = op.Start + int64(rapid.IntRange(1, 40).Draw(t, "preset-len"))
+				if rapid.IntRange(0, 7).Draw(t, "preset-equals-start") == 0 && op.Start > 0 {
+					// the unary layer lets through "end after or equal to start" (an end before the
+					// start is refused there and never reaches the domain database)
+					op.Preset = op.Start
+				}
 			}
 			open[next] = op.Start
 			next++
@@ -161,6 +166,9 @@ type lwriter struct {
 // delete whose range overlaps the control range of an open writer, so such deletes never reach
 // the domain database.
 func (lw *lwriter) controls(a, b int64) bool {
+	if lw.preset != 0 && lw.preset <= lw.start {
+		return true // a range the unary layer would never lock: keep deletes away from such a writer altogether
+	}
 	return b > lw.start && (lw.preset == 0 || a < lw.preset)
 }
 
@@ -189,6 +197,15 @@ func executeLoose(sc LScript, rep *kit.Report) error {
 				operr = oerr
 				rep.Class("open-refused")
 				break
+			}
+			for _, d := range before {
+				if d.S <= op.Start && op.Start < d.E {
+					_ = w.Close()
+					return kit.Fail("open-inside-existing-data", "%s: OpenWriter succeeded although its start lies inside the stored domain [%d,%d) (stored: %s)", where, d.S, d.E, show(before))
+				}
+			}
+			if op.Preset != 0 && op.Preset <= op.Start {
+				rep.Class("preset-end-not-after-start")
 			}
 			ws[op.W] = &lwriter{w: w, start: op.Start, preset: op.Preset}
 			if op.Preset != 0 {
